@@ -141,13 +141,16 @@ def count_lines(path):
     return n
 
 
+RESET_RE = re.compile(r'"op":\s*"Reset"')
+
+
 def shard_scripts(path, nshards, scratch, key="sid"):
     """Splits an ndjson script file into shards, keeping every script (same sid) together."""
     outs = [open(scratch.path("shard-%s-%d.ndjson" % (os.path.basename(path), i)), "w") for i in range(nshards)]
     cur, idx, nscripts = None, -1, 0
     with open(path) as f:
         for line in f:
-            if '"op":"Reset"' in line:
+            if RESET_RE.search(line):
                 nscripts += 1
                 idx = (idx + 1) % nshards
             outs[max(idx, 0)].write(line)
@@ -207,5 +210,5 @@ def extract_script(trace, sid, dest, key="sid"):
             if ev.get(key) == sid:
                 for k in ("res", "ch", "heap", "val", "kind", "err", "equal", "sel", "path", "note"):
                     ev.pop(k, None)
-                o.write(json.dumps(ev, ensure_ascii=False) + "\n")
+                o.write(json.dumps(ev, ensure_ascii=False, separators=(",", ":")) + "\n")
     return dest
